@@ -33,6 +33,8 @@ type Contract struct {
 	StoreGuards []*Clause    // storeguard[label] T.f: expr - must hold whenever the unit stores to field f of a T (Raw = "T.f"; value = the stored value)
 	ChanSends   []*Clause    // chansend[label]: expr over ch, val - must hold for every channel send (statement or select case) of the unit
 	CallPres    []*Clause    // callpre[label] <callee name>: expr over recv, arg0.. - must hold at every static call of that function in the unit (Raw = callee name)
+	DynEnsures  []*Clause    // dynensures[label] <FuncTypeName>: expr over arg0.., result0.. - ASSUMED of every call of a function value of that named type (Raw = type name)
+	SafetyKinds []string     // "safety k1 k2": only these kinds of safety obligations (empty: all)
 	DynCalls    []*Clause    // dyncall[label] <FuncTypeName>: expr over arg0.. - obligation at every call of a function value of that named type (Raw = type name)
 	SortBy      []*Clause    // sortby <k>: expr - meaning of the less closure of the k-th sort.Slice / sort.SliceStable call (Loop = k)
 	Carve       *Clause      // known-finding carve-out: every obligation is split into (cond ==> goal) and (!cond ==> goal)
@@ -268,7 +270,7 @@ func parseCExpr(text string) (ast.Expr, string, error) {
 }
 
 var clauseKeywords = map[string]bool{
-	"func": true, "props": true, "ghostensures": true, "case": true, "assume": true, "carve": true, "caseall": true, "commute": true, "sortby": true, "assumeframe": true, "guarded": true, "guardedfield": true, "dyncall": true, "storeguard": true, "chansend": true, "callpre": true, "mode": true, "requires": true, "ensures": true, "invariant": true,
+	"func": true, "props": true, "ghostensures": true, "case": true, "assume": true, "carve": true, "caseall": true, "commute": true, "sortby": true, "assumeframe": true, "guarded": true, "guardedfield": true, "dyncall": true, "dynensures": true, "storeguard": true, "chansend": true, "callpre": true, "mode": true, "requires": true, "ensures": true, "invariant": true,
 	"modifies": true, "safety": true, "overflow": true, "inline": true, "trusted": true, "dispatch": true,
 	"let": true, "spec": true, "external": true, "uf": true, "params": true, "results": true,
 	"global": true, "noinline": true, "nocontract": true, "expand": true, "split": true, "strictpkgs": true, "modcomps": true, "axiom": true, "uses": true, "scan": true, "witness": true, "havoc": true, "inlineall": true, "unroll": true,
@@ -516,6 +518,17 @@ func (cs *ContractSet) parseContractSource(pkgPath, filename string, src []byte)
 					c.Raw = strings.TrimSpace(rest[:colon])
 					cur.DynCalls = append(cur.DynCalls, c)
 				}
+			case "dynensures":
+				// dynensures[label] <FuncTypeName>: expr over arg0.., result0..  (assumption)
+				colon := strings.Index(rest, ":")
+				if colon < 0 {
+					bad(fmt.Errorf("dynensures needs '<FuncType>:'"))
+					continue
+				}
+				if c := mk(strings.TrimSpace(rest[colon+1:])); c != nil {
+					c.Raw = strings.TrimSpace(rest[:colon])
+					cur.DynEnsures = append(cur.DynEnsures, c)
+				}
 			case "sortby":
 				// sortby <k>: expr over the parameter names of the less closure
 				colon := strings.Index(rest, ":")
@@ -542,6 +555,7 @@ func (cs *ContractSet) parseContractSource(pkgPath, filename string, src []byte)
 				cur.AssumeFrame = true
 			case "safety":
 				cur.Safety = true
+				cur.SafetyKinds = strings.Fields(rest)
 			case "overflow":
 				cur.Overflow = true
 			case "inline":
